@@ -51,7 +51,44 @@ def item_names():
     return names
 
 
+
+_ITEM_LINES = None
+
+
+def _item_at_span(m):
+    """name of the const/static item of constprobe/src/items.rs that a diagnostic points into (through macro expansions)"""
+    global _ITEM_LINES
+    if _ITEM_LINES is None:
+        _ITEM_LINES = {}
+        try:
+            for i, line in enumerate(open(os.path.join(CONSTPROBE, "src", "items.rs")), 1):
+                for mm in re.finditer(r"pub (?:const|static|fn) (\w+)", line):
+                    _ITEM_LINES.setdefault(i, mm.group(1))
+        except OSError:
+            pass
+
+    def walk(sp):
+        while sp:
+            if sp.get("file_name", "").endswith("items.rs") and sp.get("line_start") in _ITEM_LINES:
+                return _ITEM_LINES[sp["line_start"]]
+            sp = (sp.get("expansion") or {}).get("span")
+        return None
+
+    spans = sorted(m.get("spans", []), key=lambda x: not x.get("is_primary"))
+    for sp in spans:
+        r = walk(sp)
+        if r:
+            return r
+    for ch in m.get("children", []):
+        for sp in ch.get("spans", []):
+            r = walk(sp)
+            if r:
+                return r
+    return None
+
+
 def analyse_const_messages(msgs, names, variant):
+    compile_errors = []
     """classify rustc's diagnostics on the generated const items"""
     violations, inconclusive = [], []
     n_errors = 0
@@ -80,7 +117,7 @@ def analyse_const_messages(msgs, names, variant):
                                "detail": rendered[:1800], "log": [], "variant": variant, "engine": "constprobe", "args": []})
             continue
         if not is_const_eval:
-            inconclusive.append(f"constprobe no longer compiles against this tree ({code}): {text[:200]}")
+            compile_errors.append((code, text, _item_at_span(m)))
             continue
         # which item?
         ids = re.findall(r"\b([CRF]\d+)\b", rendered)
@@ -99,6 +136,24 @@ def analyse_const_messages(msgs, names, variant):
         summary = re.sub(r"\d+", "#", text)[:120]
         violations.append({"prop": "C18", "sig": f"{fam}|const-eval:{summary}", "case": f"C18 {item}",
                            "detail": rendered[:1800], "log": [], "variant": variant, "engine": "constprobe", "args": []})
+    # Differential reading of ordinary compile errors (type / trait errors, not const-evaluation ones):
+    # the family of `arr![x; <computed type-level length>]` items (CL*/CS*/CZ*) sits next to items that
+    # use the same macro arm with named lengths (T*, HUGE_REP).  If EVERY compile error lies in items of
+    # that family while the named-length items of the same macro compile, the macro did not move -- it
+    # stopped working for lengths C18 quantifies over ("for every length"): a violation.  Any other
+    # compile error means the API changed under the probe crate: inconclusive, as before.
+    if compile_errors:
+        fam = [e for e in compile_errors if e[2] and re.fullmatch(r"C[LSZF]\d+", e[2])]
+        if len(fam) == len(compile_errors):
+            items = sorted({e[2] for e in fam})
+            codes = sorted({e[0] or "?" for e in fam})
+            violations.append({"prop": "C18", "sig": "arr!|computed-length|AcceptedItemRejected:" + "+".join(codes),
+                               "case": "C18 arr![x; <computed type-level length>] in const/static items " + ", ".join(items[:8]),
+                               "detail": "; ".join(f"{e[2]}: {e[0]} {e[1][:160]}" for e in fam[:6]) + " -- the same macro arm compiles for named lengths (T*, HUGE_REP)",
+                               "log": [], "variant": variant, "engine": "constprobe", "args": []})
+        else:
+            for code, text, _item in compile_errors[:6]:
+                inconclusive.append(f"constprobe no longer compiles against this tree ({code}): {text[:200]}")
     return violations, inconclusive, n_errors
 
 
